@@ -10,7 +10,7 @@ from harness import gen, model, ref
 from harness.model import T
 from harness.props.c01 import compare_load, load_outcome
 from harness.props.c05 import plain_doc
-from harness.props import v1streams, reach
+from harness.props import v1streams, reach, c10_dump
 
 EXTRA_POOL = ['zzz', 'extra_key', 'extraKey', 'Extra-Key', 'X', 'unknown field', 'q1', '__other__', 'élan', 'a.b', 'x[0]', '',
               'ZZ_TOP', 'né', '1abc', 'with"quote', "it's", 'UPPER', 'tag', '__tag__x']
@@ -227,9 +227,12 @@ REACH_OFFSET = 30_000_000
 def run(ctx: C.Ctx):
     if ctx.only is None or ctx.only < REACH_OFFSET:
         v1streams.run_streams(ctx, run_default, run_v1)
-    if ctx.only is None or ctx.only >= REACH_OFFSET:
+    if ctx.only is None or REACH_OFFSET <= ctx.only < c10_dump.OFFSET:
         # third stream: the class that receives the unknown keys is reached through a tagged Union / a TypedDict value / ...
         run_reach(ctx)
+    if ctx.only is None or c10_dump.OFFSET <= ctx.only < 700_000_000:
+        # fourth stream: the write-back clause under the dump-side settings of the class (Meta.skip_if / skip_defaults_if / ...)
+        c10_dump.run(ctx)
     # the dump side of this property (catch-all items written back at top level / the tag entry) at the level of the generated
     # code: generator model text == generated source, Lean interpreter of that text == the real result (harness/props/c11_gencode.py)
     from . import c11_gencode
